@@ -35,6 +35,7 @@ def opi (s : Stack) : List (Option Nat × Bool) × List (Tid × TaskSt) :=
 @[simp] theorem opi_with_draws (s : Stack) (x : List Nat) : opi { s with draws := x } = opi s := rfl
 @[simp] theorem opi_with_storeLog (s : Stack) (x : List (Bool × SvcKey × Addr)) : opi { s with storeLog := x } = opi s := rfl
 @[simp] theorem opi_with_refreshLog (s : Stack) (x : List (Addr × SvcKey × Nat × Nat)) : opi { s with refreshLog := x } = opi s := rfl
+@[simp] theorem opi_with_armLog (s : Stack) (x : List (Cb × Nat × Nat)) : opi { s with armLog := x } = opi s := rfl
 @[simp] theorem opi_with_found_refreshLog (s : Stack) (x : TStore SvcKey) (y : List (Addr × SvcKey × Nat × Nat)) : opi { s with found := x, refreshLog := y } = opi s := rfl
 @[simp] theorem opi_with_found (s : Stack) (x : TStore SvcKey) : opi { s with found := x } = opi s := rfl
 @[simp] theorem opi_with_found_storeLog (s : Stack) (x : TStore SvcKey) (y : List (Bool × SvcKey × Addr)) : opi { s with found := x, storeLog := y } = opi s := rfl
